@@ -121,7 +121,7 @@ pub fn explore(ctx: &Ctx) {
     let mut sites = vec![];
     for (i, &lat) in lats.iter().enumerate() {
         for (j, &(lon, gmt)) in zs.iter().enumerate() {
-            if quick && (i + j) % 3 != 0 {
+            if quick && (i + j) % 2 != 0 {
                 continue;
             }
             sites.push(Site::new(lat, lon, [0.0, 8848.0, -420.0][(i + j) % 3], gmt));
